@@ -32,3 +32,67 @@ def LocalInstantG() -> Obj:
 
 def LocalInstantAnyG() -> Obj:
     return Obj("pyoda_time._local_instant:_LocalInstant", {"_LocalInstant__duration": DurationG()}, inv=V.inv_linstant_any)
+
+
+# ------------------------------------------------------------------------------------------ abstract calendars
+from pyvc.contracts import Gen  # noqa: E402
+
+
+class AbsCalG(Gen):
+    """A symbolic calendar satisfying the CAL interface contract (specs/cal_abs.py)."""
+
+    def __init__(self, name: str = "cal") -> None:
+        self.name = name
+
+    def make(self, name, b):
+        from specs import cal_abs
+
+        ac = cal_abs.new_calendar(b, self.name)
+        b.named[self.name] = ac
+        return ac
+
+    def concretize(self, v, ev, live):
+        return v
+
+
+class YmdG(Gen):
+    """A valid (year, month, day) of the named abstract calendar, as a packed _YearMonthDay (with ghost components)."""
+
+    def __init__(self, cal: str = "cal", valid: bool = True) -> None:
+        self.cal, self.valid = cal, valid
+
+    def make(self, name, b):
+        from pyvc import sym
+        from pyvc.values import SObj
+        from pyoda_time._year_month_day import _YearMonthDay
+        from specs import packmodel
+
+        ac = b.named[self.cal]
+        y, m, d = sym.var_int(f"{name}.y"), sym.var_int(f"{name}.m"), sym.var_int(f"{name}.d")
+        if self.valid:
+            b.assume(ac.valid_date(y, m, d))
+            for ax in ac.ax_year(y) + [ac.ax_month(y, m)]:
+                b.assume(ax)
+        return SObj(_YearMonthDay, {"_YearMonthDay__value": packmodel.pack_ymd(y, m, d), "$y": y, "$m": m, "$d": d}, owner=-1, tag=name)
+
+
+class LocalDateG(Gen):
+    """A valid LocalDate of the named abstract calendar."""
+
+    def __init__(self, cal: str = "cal") -> None:
+        self.cal = cal
+
+    def make(self, name, b):
+        from pyvc import sym
+        from pyvc.values import SObj
+        from pyoda_time._local_date import LocalDate
+        from pyoda_time._year_month_day_calendar import _YearMonthDayCalendar
+        from specs import packmodel
+
+        ac = b.named[self.cal]
+        y, m, d = sym.var_int(f"{name}.y"), sym.var_int(f"{name}.m"), sym.var_int(f"{name}.d")
+        b.assume(ac.valid_date(y, m, d))
+        for ax in ac.ax_year(y) + ac.ax_year(y + 1) + [ac.ax_month(y, m)]:
+            b.assume(ax)
+        ymdc = SObj(_YearMonthDayCalendar, {"_YearMonthDayCalendar__value": packmodel.pack_ymd(y, m, d) * 64 + ac.ordinal, "$y": y, "$m": m, "$d": d, "$o": ac.ordinal}, owner=-1, tag=name + ".ymdc")
+        return SObj(LocalDate, {"_LocalDate__year_month_day_calendar": ymdc}, owner=-1, tag=name)
